@@ -28,26 +28,26 @@ ENV = dict(os.environ, CARGO_NET_OFFLINE="true")
 # `events`: None = compare all events; otherwise only events with these identifiers
 # (the property's own observables), so that unrelated behaviour does not raise this alarm.
 PROPS = {
-    "C06": dict(quick=3000, thorough=60000, events=None, runs_thorough=8),
-    "C07": dict(quick=4000, thorough=80000, events=None, runs_thorough=8),
-    "C01": dict(quick=4000, thorough=120000, events=None, runs_thorough=12),
-    "C02": dict(quick=4000, thorough=120000, events=None, runs_thorough=12),
-    "C03": dict(quick=4000, thorough=120000, events=None, runs_thorough=12),
-    "C15": dict(quick=4000, thorough=120000, events=None, runs_thorough=12),
-    "C04": dict(quick=6000, thorough=160000, events=None, runs_thorough=12),
-    "C05": dict(quick=6000, thorough=160000, events=None, runs_thorough=12),
-    "C08": dict(quick=6000, thorough=160000, events=None, runs_thorough=12),
-    "C13": dict(quick=6000, thorough=160000, events=None, runs_thorough=12),
-    "C14": dict(quick=6000, thorough=160000, events=None, runs_thorough=12),
-    "C17": dict(quick=6000, thorough=160000, events=None, runs_thorough=12),
-    "C18": dict(quick=6000, thorough=160000, events=None, runs_thorough=12),
-    "C19": dict(quick=6000, thorough=160000, events=None, runs_thorough=12),
-    "C20": dict(quick=6000, thorough=160000, events=None, runs_thorough=12),
-    "C11": dict(quick=5000, thorough=150000, events=None, runs_thorough=12),
-    "C12": dict(quick=5000, thorough=150000, events=None, runs_thorough=12),
-    "C16": dict(quick=5000, thorough=150000, events=None, runs_thorough=12),
-    "C09": dict(quick=5000, thorough=150000, events=None, runs_thorough=12),
-    "C10": dict(quick=5000, thorough=150000, events=None, runs_thorough=12),
+    "C06": dict(quick=3000, thorough=1440000, events=None, runs_thorough=112),
+    "C07": dict(quick=4000, thorough=1920000, events=None, runs_thorough=112),
+    "C01": dict(quick=4000, thorough=2880000, events=None, runs_thorough=112),
+    "C02": dict(quick=4000, thorough=2880000, events=None, runs_thorough=112),
+    "C03": dict(quick=4000, thorough=2880000, events=None, runs_thorough=112),
+    "C15": dict(quick=4000, thorough=2880000, events=None, runs_thorough=112),
+    "C04": dict(quick=6000, thorough=3840000, events=None, runs_thorough=112),
+    "C05": dict(quick=6000, thorough=3840000, events=None, runs_thorough=112),
+    "C08": dict(quick=6000, thorough=3840000, events=None, runs_thorough=112),
+    "C13": dict(quick=6000, thorough=3840000, events=None, runs_thorough=112),
+    "C14": dict(quick=6000, thorough=3840000, events=None, runs_thorough=112),
+    "C17": dict(quick=6000, thorough=3840000, events=None, runs_thorough=112),
+    "C18": dict(quick=6000, thorough=3840000, events=None, runs_thorough=112),
+    "C19": dict(quick=6000, thorough=3840000, events=None, runs_thorough=112),
+    "C20": dict(quick=6000, thorough=3840000, events=None, runs_thorough=112),
+    "C11": dict(quick=5000, thorough=3600000, events=None, runs_thorough=112),
+    "C12": dict(quick=5000, thorough=3600000, events=None, runs_thorough=112),
+    "C16": dict(quick=5000, thorough=3600000, events=None, runs_thorough=112),
+    "C09": dict(quick=5000, thorough=3600000, events=None, runs_thorough=112),
+    "C10": dict(quick=5000, thorough=3600000, events=None, runs_thorough=112),
 }
 
 TRUSTED_BASE = [
@@ -401,7 +401,7 @@ def main(argv):
         errs = [l for l in out.split("\n") if l.startswith("error")]
         broken.append("harness does not build against /repo: " + " | ".join(errs[:6]))
 
-    all_recs = []
+    stats = {"n": 0, "classes": collections.Counter(), "nontrivial": set(), "samples": [], "seen_cls": set()}
     violations = []      # (verdict, sequence lines)
     disagreements = []   # (index description, sequence lines)
     can_run = ok_cargo and ok_drv and os.path.exists(os.path.join(LEAN, ".lake", "build", "bin", "driver"))
@@ -421,7 +421,15 @@ def main(argv):
                                   sequence_of(recs, k)))
         for k, v in vio[:20]:
             violations.append((v, sequence_of(recs, k)))
-        all_recs.extend(recs)
+        stats["n"] += len(recs)
+        for (o, i_, m, v) in recs:
+            c = op_class(o, i_)
+            stats["classes"][c] += 1
+            if i_.startswith("ok") and not o.startswith(("reset", "acct", "time", "newaddr", "roles", "note")):
+                stats["nontrivial"].add(hashlib.sha1(o.encode()).digest()[:8])
+            if c not in stats["seen_cls"] and len(stats["samples"]) < 12:
+                stats["seen_cls"].add(c)
+                stats["samples"].append({"op": o[:400], "impl": i_[:300], "model": m[:300], "judge": v})
         return len(dis), len(vio)
 
     if replay:
@@ -440,9 +448,18 @@ def main(argv):
         if tier == "quick":
             consume(safe_pair(prop, seed, cfg["quick"], "q"), f"seed {seed}")
         else:
-            for r in range(cfg.get("runs_thorough", 4)):
-                consume(safe_pair(prop, seed * 1000 + r, cfg["thorough"] // cfg.get("runs_thorough", 4), f"t{r}"),
-                        f"seed {seed * 1000 + r}")
+            # thorough: many independent seeded runs, executed on all cores
+            import concurrent.futures
+            runs = cfg.get("runs_thorough", 4)
+            per = cfg["thorough"] // runs
+            workers = min(14, os.cpu_count() or 4)
+            with concurrent.futures.ThreadPoolExecutor(max_workers=workers) as ex:
+                for b in range(0, runs, workers):
+                    batch = list(range(b, min(runs, b + workers)))
+                    futs = {r: ex.submit(safe_pair, prop, seed * 1000 + r, per, f"t{r % workers}") for r in batch}
+                    for r in batch:
+                        consume(futs[r].result(), f"seed {seed * 1000 + r}")
+                        futs[r] = None
 
     # directed search when a proof or the correspondence broke and no failing input is known yet
     searched = 0
@@ -492,21 +509,9 @@ def main(argv):
         exit_code = 1
 
     # ---------------- evidence ----------------
-    classes = collections.Counter(op_class(o, i_) for (o, i_, _m, _v) in all_recs)
-    nontrivial = set()
-    for (o, i_, _m, _v) in all_recs:
-        if i_.startswith("ok") and not o.startswith(("reset", "acct", "time", "newaddr", "roles", "note")):
-            nontrivial.add(hashlib.sha1(o.encode()).hexdigest())
-    samples = []
-    seen_cls = set()
-    for (o, i_, m, v) in all_recs:
-        c = op_class(o, i_)
-        if c in seen_cls:
-            continue
-        seen_cls.add(c)
-        samples.append({"op": o[:400], "impl": i_[:300], "model": m[:300], "judge": v})
-        if len(samples) >= 12:
-            break
+    classes = stats["classes"]
+    nontrivial = stats["nontrivial"]
+    samples = stats["samples"]
     obligations = len(names)
     ev = {
         "property_id": prop,
@@ -520,13 +525,13 @@ def main(argv):
                            + (" && lake env leanchecker Axelar.Props." + prop if tier == "thorough" else ""),
             "trusted_base": TRUSTED_BASE,
             "theorems": [f"Axelar.Props.{prop}.{n}" for n in names],
-            "evaluations": len(all_recs),
+            "evaluations": stats["n"],
             "distinct_nontrivial": len(nontrivial),
             "rule": "operations generated from one seeded PRNG by harness/src/gen (mostly-valid + malformed streams), executed on "
                     "the real crates in the Rust VM and on the compiled Lean model; non-trivial = distinct op lines whose "
                     "implementation outcome is a success (state change, returned value or accepted input)",
             "samples": samples or [{"note": "no differential run was possible", "broken": broken[:3]}],
-            "traces_validated_against_impl": len(all_recs),
+            "traces_validated_against_impl": stats["n"],
             "disagreements": len(disagreements),
             "judge_violations": len(violations),
             "outcome_histogram": {f"{k[0]}/{k[1]}": n for k, n in sorted(classes.items())},
@@ -543,7 +548,7 @@ def main(argv):
 
     for l in out_lines:
         log(l)
-    log(f"[{prop}] tier={tier} seed={seed} theorems={discharged}/{obligations} ops={len(all_recs)} "
+    log(f"[{prop}] tier={tier} seed={seed} theorems={discharged}/{obligations} ops={stats['n']} "
         f"disagreements={len(disagreements)} judge_violations={len(violations)} broken={len(broken)} "
         f"wall={time.time() - t0:.1f}s exit={exit_code}")
     for b in broken[:8]:
